@@ -416,6 +416,6 @@ func TestVerif_C07_Seq(t *testing.T) {
 			r.Sample(map[string]interface{}{"case": c, "obs": o})
 		}
 	}
-	r.Set("sdseq.final_balances_as_modelled", int64(asModelled))
-	r.Set("sdseq.final_balances_not_as_modelled", int64(other))
+	r.Set("final_balances_as_modelled", int64(asModelled))
+	r.Set("final_balances_not_as_modelled", int64(other))
 }
